@@ -1764,3 +1764,136 @@ func runOutFile(c *Ctx, r *Reporter) {
 		r.Undecided("the command package creates no file")
 	}
 }
+
+// R-CONSTPOOL: the index addConstant hands out denotes the very value it was given.
+//
+// The operand of OpConstant is whatever addConstant returns. If constants are shared (a pool), two literals may
+// share an entry only if they are the same value of the same kind: the number 1 and the string "1" print alike but
+// are different constants. So every index addConstant returns is the position of an append of its argument on that
+// path, or the result of a look-up keyed by the argument itself (interface equality includes the dynamic type) —
+// never one found through a rendering of the value (String, Sprintf), which merges constants across kinds.
+var ruleConstPool = &Rule{
+	ID:    "R-CONSTPOOL",
+	Doc:   "every index returned by (*Compiler).addConstant is the position of an append of its argument on that path, or was looked up under the argument itself as key (not under a rendering of it)",
+	Floor: 1,
+	Run:   runConstPool,
+}
+
+func runConstPool(c *Ctx, r *Reporter) {
+	p, pkg := bytecodePkg(c, r)
+	if pkg == nil {
+		return
+	}
+	fd := FindFunc(pkg, "(*Compiler).addConstant")
+	if fd == nil {
+		r.Undecided("(*Compiler).addConstant not found")
+		return
+	}
+	sf := p.SSAFunc(fd.Obj)
+	if len(sf.Params) != 2 {
+		r.Undecided("addConstant: unexpected signature")
+		return
+	}
+	obj := sf.Params[1]
+	isObj := func(v ssa.Value) bool {
+		for i := 0; i < 3; i++ {
+			switch x := v.(type) {
+			case *ssa.ChangeInterface:
+				v = x.X
+				continue
+			case *ssa.MakeInterface:
+				v = x.X
+				continue
+			}
+			break
+		}
+		return v == ssa.Value(obj)
+	}
+	// appends of obj onto c.constants
+	var appendBlocks []*ssa.BasicBlock
+	for _, b := range sf.Blocks {
+		for _, ins := range b.Instrs {
+			call, ok := ins.(*ssa.Call)
+			if !ok {
+				continue
+			}
+			if bi, ok := call.Call.Value.(*ssa.Builtin); !ok || bi.Name() != "append" || len(call.Call.Args) != 2 {
+				continue
+			}
+			if !mentionsField(call.Call.Args[0], "constants", 3) {
+				continue
+			}
+			// the appended slice literal holds obj
+			holds := false
+			if sl, ok := call.Call.Args[1].(*ssa.Slice); ok {
+				if al, ok := sl.X.(*ssa.Alloc); ok {
+					for _, ref := range *al.Referrers() {
+						if ia, ok := ref.(*ssa.IndexAddr); ok {
+							for _, r2 := range *ia.Referrers() {
+								if st, ok := r2.(*ssa.Store); ok && isObj(st.Val) {
+									holds = true
+								}
+							}
+						}
+					}
+				}
+			}
+			if holds {
+				appendBlocks = append(appendBlocks, b)
+			}
+		}
+	}
+	var classify func(v ssa.Value, at *ssa.BasicBlock, depth int) string
+	classify = func(v ssa.Value, at *ssa.BasicBlock, depth int) string {
+		if depth > 5 {
+			return "a value that cannot be traced"
+		}
+		switch x := v.(type) {
+		case *ssa.BinOp:
+			if x.Op == token.SUB {
+				if k, ok := x.Y.(*ssa.Const); ok && k.Value != nil && k.Value.ExactString() == "1" {
+					if lc, ok := x.X.(*ssa.Call); ok && isLenCall(lc) && mentionsField(lc.Call.Args[0], "constants", 3) {
+						for _, ab := range appendBlocks {
+							if ab == x.Block() || ab.Dominates(x.Block()) {
+								return ""
+							}
+						}
+						return "len(c.constants)-1 on a path without an append of the argument"
+					}
+				}
+			}
+		case *ssa.Extract:
+			if lk, ok := x.Tuple.(*ssa.Lookup); ok && x.Index == 0 {
+				if isObj(lk.Index) {
+					return ""
+				}
+				return "an index looked up under `" + lk.Index.String() + "`, a rendering of the value and not the value itself"
+			}
+		case *ssa.Lookup:
+			if isObj(x.Index) {
+				return ""
+			}
+			return "an index looked up under `" + x.Index.String() + "`, a rendering of the value and not the value itself"
+		case *ssa.Phi:
+			for i, e := range x.Edges {
+				if why := classify(e, x.Block().Preds[i], depth+1); why != "" {
+					return why
+				}
+			}
+			return ""
+		}
+		return "`" + v.String() + "`"
+	}
+	n := 0
+	for _, ret := range returnsOf(sf) {
+		for _, rv := range resultValues(ret, 0) {
+			n++
+			why := classify(rv, ret.Block(), 0)
+			r.Check(why == "", fmt.Sprintf("%s#index-denotes-argument[%d]", fd.QName(), n), p.Rel(instrPos(ret)), "the returned index is where the argument was appended (or was found under the argument itself)",
+				"addConstant returns "+why+": constants of different kinds that render alike (the number 1 and the string \"1\", true and \"true\") would share one entry, and the program loads a value of the wrong type")
+		}
+	}
+	if n == 0 {
+		r.Undecided("addConstant has no return")
+	}
+}
